@@ -373,7 +373,7 @@ func isBoolean(k reflect.Kind) bool {
 // isOrdered reports whether t is ordered.
 func isOrdered(t *typeInfo) bool {
 	k := t.Type.Kind()
-	return isNumeric(k) || k == reflect.String
+	return isNumeric(k) && !isComplex(k) || k == reflect.String
 }
 
 // isMapIndexing reports whether the given expression has the form
